@@ -240,7 +240,36 @@ func tableSequence(o *Out, r *rand.Rand, seqNo, nOps int) {
 	preInit := seqNo%5 == 2 && seqNo%4 != 3
 	var tab *portalwire.Table
 	var err error
-	if preInit {
+	// every third sequence runs a table that was configured with boot nodes - among them, now and then, the record of the
+	// local node itself (an operator running one of the nodes of the default boot list): they are added when the table is
+	// built and again by the seed-loading step of every refresh
+	type bootNode struct {
+		key  *ecdsa.PrivateKey // nil: the local node's own record
+		node *enode.Node
+		ip   net.IP
+		port int
+	}
+	var boot []bootNode
+	if seqNo%3 == 0 {
+		for n := 1 + r.Intn(4); n > 0; n-- {
+			if r.Intn(3) == 0 {
+				boot = append(boot, bootNode{nil, self, net.IP{127, 0, 0, 1}, 30303})
+				continue
+			}
+			k := keyFromSeed(r)
+			ip := net.IP{34, 1, 7, byte(1 + r.Intn(250))}
+			if r.Intn(3) == 0 {
+				ip = net.IP{192, 168, 1, byte(1 + r.Intn(200))}
+			}
+			port := 30000 + r.Intn(4)
+			boot = append(boot, bootNode{k, signRec(k, ip, port, 1), ip, port})
+		}
+		var bn []*enode.Node
+		for _, b := range boot {
+			bn = append(bn, b.node)
+		}
+		tab, err = portalwire.VerifNewTableBoot(tr, db, clock, 3*time.Second, r.Int63(), bn, !preInit)
+	} else if preInit {
 		tab, err = portalwire.VerifNewTableForLoop(tr, db, clock, 3*time.Second, r.Int63())
 	} else {
 		tab, err = portalwire.VerifNewTable(tr, db, clock, 3*time.Second, r.Int63())
@@ -377,7 +406,31 @@ func tableSequence(o *Out, r *rand.Rand, seqNo, nOps int) {
 	}
 	var pend []pending
 	now := time.Duration(0)
+	// the boot nodes: ids and records are declared now, and the first line is the table as its construction left it
+	var bootRefs []string
+	for j, b := range boot {
+		idx := nIds
+		if b.key != nil {
+			idx = nIds + 1 + j
+			ts.idIdx[b.node.ID()] = idx
+			o.Case(fmt.Sprintf("id i%d %x bucket=%d", idx, b.node.ID().Bytes(), tab.VerifBucketIndex(b.node.ID())), "ok")
+		}
+		recs = append(recs, tabRec{idx, b.node, b.ip, b.port, 1})
+		k := len(recs) - 1
+		o.Case(fmt.Sprintf("rec r%d i%d ip=%s port=%d seq=%d lan=%d", k, idx, ipText(b.node.IPAddr()), b.port, 1, b2i(netutil.IsLAN(b.ip))), "ok")
+		bootRefs = append(bootRefs, fmt.Sprintf("r%d", k))
+	}
+	if len(boot) > 0 {
+		snap, _ := ts.snapshot()
+		o.Case("loadseeds "+strings.Join(bootRefs, ","), snap)
+	}
 	for op := 0; op < nOps; op++ {
+		if len(boot) > 0 && r.Intn(25) == 0 {
+			// a refresh loads the seeds again
+			tab.VerifLoadSeedNodes()
+			snap, _ := ts.snapshot()
+			o.Case("loadseeds "+strings.Join(bootRefs, ","), snap)
+		}
 		if preInit && op == nOps/3 {
 			tab.VerifFinishInit()
 			preInit = false
